@@ -614,6 +614,54 @@ func (in *Interp) merge(c *Term, a, b Value) Value {
 		if y, ok := b.(*SliceV); ok && !x.nilS && !y.nilS && sameBacking(x.a, y.a) && x.off == y.off && x.soff == y.soff && x.cap == y.cap && len(x.a) > 0 {
 			return &SliceV{a: x.a, off: x.off, soff: x.soff, n: ts.Ite(c, x.n, y.n), cap: x.cap}
 		}
+		// same backing array, different offsets: exact, through a symbolic offset
+		if y, ok := b.(*SliceV); ok && !x.nilS && !y.nilS && sameBacking(x.a, y.a) && len(x.a) > 0 {
+			ox, oy := ts.BV(64, uint64(x.off)), ts.BV(64, uint64(y.off))
+			if x.soff != nil {
+				ox = ts.Bin(OpAdd, ox, x.soff)
+			}
+			if y.soff != nil {
+				oy = ts.Bin(OpAdd, oy, y.soff)
+			}
+			cp := x.cap + x.off
+			if y.cap+y.off > cp {
+				cp = y.cap + y.off
+			}
+			if cp > len(x.a) {
+				cp = len(x.a)
+			}
+			return &SliceV{a: x.a, off: 0, soff: ts.Ite(c, ox, oy), n: ts.Ite(c, x.n, y.n), cap: cp}
+		}
+		// two scalar slices with different backing arrays: merge by value into a fresh array
+		// (aliasing with the originals is given up; recorded as an engine approximation). Only done
+		// under pressure (in.copyMerge), i.e. when the guarded union would otherwise grow too large.
+		if y, ok := b.(*SliceV); ok && in.copyMerge && !x.nilS && !y.nilS {
+			mx, my := in.maxLen(x), in.maxLen(y)
+			if w, ok := in.scalarElems(x, mx); ok {
+				if w2, ok2 := in.scalarElems(y, my); ok2 && (w == w2 || w == 255 || w2 == 255) && !(w == 255 && w2 == 255) {
+					if w == 255 {
+						w = w2
+					}
+					m := mx
+					if my > m {
+						m = my
+					}
+					arr := make([]Value, m)
+					for k := 0; k < m; k++ {
+						var p, q *Term = ts.BV(w, 0), ts.BV(w, 0)
+						if k < mx {
+							p = in.elem(x, k).(*Term)
+						}
+						if k < my {
+							q = in.elem(y, k).(*Term)
+						}
+						arr[k] = ts.Ite(c, p, q)
+					}
+					in.stubLog["engine:merge of distinct scalar slices copies (aliasing dropped)"]++
+					return &SliceV{a: arr, n: ts.Ite(c, x.n, y.n), cap: m}
+				}
+			}
+		}
 	case Iface:
 		if y, ok := b.(Iface); ok && x.t != nil && y.t != nil && identicalT(x.t, y.t) {
 			// merge payloads when they are scalars of the same shape
@@ -638,6 +686,18 @@ func (in *Interp) merge(c *Term, a, b Value) Value {
 				return
 			}
 		}
+		if sv, ok := v.(*SliceV); ok && !sv.nilS {
+			for i := range alts {
+				if ev, ok := alts[i].v.(*SliceV); ok && !ev.nilS && sameBacking(sv.a, ev.a) {
+					if m := in.merge(g, v, alts[i].v); m != nil {
+						if _, isU := m.(*Union); !isU {
+							alts[i] = Alt{ts.Or(alts[i].g, g), m}
+							return
+						}
+					}
+				}
+			}
+		}
 		alts = append(alts, Alt{g, v})
 	}
 	if u, ok := a.(*Union); ok {
@@ -655,6 +715,32 @@ func (in *Interp) merge(c *Term, a, b Value) Value {
 	} else {
 		add(nc, b)
 	}
+	if len(alts) > 6 && !in.copyMerge {
+		// under pressure: fold scalar slices with distinct backing arrays by value
+		in.copyMerge = true
+		var out []Alt
+		for _, a := range alts {
+			done := false
+			if sv, ok := a.v.(*SliceV); ok && !sv.nilS {
+				for i := range out {
+					if ev, ok := out[i].v.(*SliceV); ok && !ev.nilS {
+						if m := in.merge(a.g, a.v, out[i].v); m != nil {
+							if _, isU := m.(*Union); !isU {
+								out[i] = Alt{ts.Or(out[i].g, a.g), m}
+								done = true
+								break
+							}
+						}
+					}
+				}
+			}
+			if !done {
+				out = append(out, a)
+			}
+		}
+		in.copyMerge = false
+		alts = out
+	}
 	if len(alts) == 1 {
 		return alts[0].v
 	}
@@ -662,6 +748,23 @@ func (in *Interp) merge(c *Term, a, b Value) Value {
 		abortf("guarded union with %d alternatives (limit %d)", len(alts), in.maxUnion)
 	}
 	return &Union{alts: alts}
+}
+
+// scalarElems reports whether the first n elements are all *Term of one width (255 = empty).
+func (in *Interp) scalarElems(s *SliceV, n int) (uint8, bool) {
+	w := uint8(255)
+	for k := 0; k < n; k++ {
+		t, ok := in.elem(s, k).(*Term)
+		if !ok || t.w == 0 {
+			return 0, false
+		}
+		if w == 255 {
+			w = t.w
+		} else if w != t.w {
+			return 0, false
+		}
+	}
+	return w, true
 }
 
 // alts enumerates the guarded alternatives of v.
